@@ -21,3 +21,4 @@ def run(ctx):
     ctx.guarded("C01.occur", lambda c: cv.occur_rule(c, "C01", "json"))
     ctx.guarded("C01.ctrlarms", lambda c: cv.arms_rule(c, "C01", "json"))
     ctx.guarded("C01.root", lambda c: cv.root_rule(c, "C01", "json"))
+    ctx.guarded("C01.ctrlrestore", lambda c: cv.ctrlrestore_rule(c, "C01", "json"))
